@@ -2,6 +2,7 @@
 (GMF binary: code, version, [keyword, next_position, payload]*), NOT from refine's sources.
 Used by the end-to-end CLI streams: input files are produced here, refine's outputs are parsed here.
 """
+import os
 import struct
 
 KW = {'dim': 3, 'vert': 4, 'edg': 5, 'tri': 6, 'qua': 7, 'tet': 8, 'pri': 9, 'hex': 10, 'pyr': 49,
@@ -173,3 +174,90 @@ def read_solb(path):
             raise MeshbError('non-increasing next position')
         p = nxt
     raise MeshbError('no SolAtVertices')
+
+
+# ---------------------------------------------------------------- AFLR3 UGRID (binary stream flavours)
+UGRID_ORDER = [('tri', 3), ('qua', 4)]
+UGRID_VOL = [('tet', 4), ('pyr', 5), ('pri', 6), ('hex', 8)]
+
+
+def ugrid_flavour(path):
+    """-> (endian, int_fmt) from the file name, as documented for AFLR3: .lb8 little, .b8 big; l / 64 suffix = 64-bit ints"""
+    name = os.path.basename(path)
+    if name.endswith('.lb8.ugrid'):
+        return '<', 'i'
+    if name.endswith('.b8.ugrid'):
+        return '>', 'i'
+    if name.endswith('.lb8l.ugrid') or name.endswith('.lb8.ugrid64'):
+        return '<', 'q'
+    if name.endswith('.b8l.ugrid') or name.endswith('.b8.ugrid64'):
+        return '>', 'q'
+    raise MeshbError('unknown ugrid flavour ' + name)
+
+
+def write_ugrid(path, verts, cells):
+    """cells: dict name -> list of tuples (0-based nodes..., id) ; id ignored for volume cells"""
+    e, it = ugrid_flavour(path)
+    out = bytearray()
+    counts = [len(verts)] + [len(cells.get(n) or []) for n, _ in UGRID_ORDER] + [len(cells.get(n) or []) for n, _ in UGRID_VOL]
+    out += struct.pack(e + '7' + it, *counts)
+    for v in verts:
+        out += struct.pack(e + '3d', *(tuple(v) + (0.0,) * (3 - len(v))))
+    for name, k in UGRID_ORDER:
+        for c in cells.get(name) or []:
+            out += struct.pack(e + str(k) + it, *[n + 1 for n in c[:k]])
+    for name, k in UGRID_ORDER:
+        for c in cells.get(name) or []:
+            out += struct.pack(e + it, c[k])
+    for name, k in UGRID_VOL:
+        for c in cells.get(name) or []:
+            out += struct.pack(e + str(k) + it, *[n + 1 for n in c[:k]])
+    with open(path, 'wb') as f:
+        f.write(out)
+
+
+def read_ugrid(path):
+    e, it = ugrid_flavour(path)
+    isz = struct.calcsize(it)
+    b = open(path, 'rb').read()
+    counts = struct.unpack_from(e + '7' + it, b, 0)
+    p = 7 * isz
+    nnode = counts[0]
+    res = {'dim': 3, 'verts': [], 'cells': {}}
+    for _ in range(nnode):
+        res['verts'].append(struct.unpack_from(e + '3d', b, p))
+        p += 24
+    surf = {}
+    for (name, k), n in zip(UGRID_ORDER, counts[1:3]):
+        lst = []
+        for _ in range(n):
+            lst.append([x - 1 for x in struct.unpack_from(e + str(k) + it, b, p)])
+            p += k * isz
+        surf[name] = lst
+    for (name, k), n in zip(UGRID_ORDER, counts[1:3]):
+        for c in surf[name]:
+            c.append(struct.unpack_from(e + it, b, p)[0])
+            p += isz
+        if surf[name]:
+            res['cells'][name] = [tuple(c) for c in surf[name]]
+    for (name, k), n in zip(UGRID_VOL, counts[3:7]):
+        lst = []
+        for _ in range(n):
+            lst.append(tuple(x - 1 for x in struct.unpack_from(e + str(k) + it, b, p)) + (0,))
+            p += k * isz
+        if lst:
+            res['cells'][name] = lst
+    if p != len(b):
+        raise MeshbError('ugrid has %d trailing bytes' % (len(b) - p))
+    return res
+
+
+def read_mesh(path):
+    return read_meshb(path) if path.endswith('.meshb') else read_ugrid(path)
+
+
+def write_mesh(path, dim, verts, cells, version=2):
+    if path.endswith('.meshb'):
+        write_meshb(path, dim, verts, cells, version=version)
+    else:
+        write_ugrid(path, verts, cells)
